@@ -245,3 +245,25 @@ async def deliver(env: Any, conn: Any, data: bytes, seg: Dict[str, Any]) -> None
             await env.settle0()
         elif b == "sleep":
             await env.sleep(seg.get("dt", 0.5))
+
+
+class SegSender:
+    """Collects what a protocol client wants to send; the driver delivers it segmented."""
+
+    def __init__(self, conn: Any) -> None:
+        self.conn = conn
+        self.out = bytearray()
+
+    @property
+    def rx(self) -> bytearray:
+        return self.conn.rx
+
+    def send(self, data: bytes) -> None:
+        self.out += data
+
+    async def flush(self, env: Any, seg: Dict[str, Any]) -> None:
+        if self.out:
+            data = bytes(self.out)
+            self.out.clear()
+            await deliver(env, self.conn, data, seg)
+        await env.settle0()
